@@ -271,7 +271,7 @@ def r3_entrypoints(ctx):
                 if isinstance(nd.func, ast.Name) and nd.func.id == 'list' and nd.args and var in facts.roots(nd.args[0]):
                     consumed = True
         guards = ' & '.join(('' if pol else 'not ') + u(t) for t, pol in p.guards())
-        run.check(consumed and p.term == FALL, 'R3', where(ctx.repo, loop), sp.qualname, guards or '<always>',
+        run.check(consumed and p.term in (FALL, CONTINUE), 'R3', where(ctx.repo, loop), sp.qualname, guards or '<always>',
                   'the driver does not fully consume a resource stream on this path (term=%s)' % p.term,
                   path=p.describe())
     run.floor('R3', n, 3, 'driver paths')
